@@ -133,10 +133,10 @@ def _check_input(rep, tree, case_xml, v, kind, at, routes):
         if g.same(exp, o):
             continue
         if not g.same(exp, lenient) and g.same(lenient, o):
-            # singleton-list conversion applied to an INPUT: the statement grants it to results only and
-            # is silent for inputs
-            rep.undecided += 1
-            rep.bump("undecided:input:singleton-list conversion of an input")
+            # singleton-list conversion applied to an INPUT: the statement grants it to results only; an input that does not
+            # conform "is replaced by null". (Counted as undecided until round 8; the unchanged tree never converts an input -
+            # the counter was 0 in every run - so the letter of the statement is enforced.)
+            fails.setdefault(("value", "%s:%s->singleton-list-conversion-applied-to-an-input" % (_locus(tree, root), kind)), []).append((route, inv, o))
             continue
         d = g.divergence(root, exp, o, v)
         node, e_part, o_part, i_part = d
@@ -267,7 +267,7 @@ def run(rep, tier, seed):
         "typeRef spellings are those of every model shipped in /repo/examples: string, number, boolean, date, time, dateTime, dayTimeDuration, yearMonthDuration; the FEEL long names (`date and time` ...) and `Any` as inputData typeRef are probed and reported but not judged",
         "allowedValues of an item definition with isCollection=true constrain the items of the collection (DMN 1.3 7.3.3), not the list as a whole",
         "a collection conforms when none of its items would itself be replaced by null; such an item makes the whole collection non-conforming (replaced by null) - the statement grants partial replacement to component types only, so inside an item that is a context of a component type only the offending component becomes null and the collection stays",
-        "INPUT side: the statement speaks of singleton-list wrapping/unwrapping for results only. Oracle = the letter (a scalar offered for a collection, or a singleton list offered for a scalar, does not conform -> null); if the implementation instead wraps/unwraps such an input the case is counted undecided, any other outcome is a violation",
+        "INPUT side: the statement speaks of singleton-list wrapping/unwrapping for results only. Oracle = the letter (a scalar offered for a collection, or a singleton list offered for a scalar, does not conform -> null); an implementation that wraps / unwraps such an input breaks the letter of the statement and is reported",
         "null conforms to every type (top level and as a component); a null ITEM inside a collection is not settled by the statement -> undecided on both sides",
         "missing components and extra context entries are not in the statement and are not generated",
         "OUTPUT side: `Raw<k>` (same literal, untyped variable) must reproduce the intended value, else the case is dropped as undecided; allowed values are part of the declared type of an output variable as they are for an input",
